@@ -251,6 +251,7 @@ func runHistory(t *rapid.T, concurrent bool) {
 		vstat.Label("pool_default")
 	}
 	e.s = chainsim.New(t, chainsim.Options{NumAccts: rapid.IntRange(2, 4).Draw(t, "naccts"), NumWallets: 2, AllRich: true, RealCache: true, MempoolCfg: mc})
+	e.s.UnderpayRate = 4
 	defer e.s.Close()
 	// seed the confidential pool (one transaction per block: the generated pool may hold a single transaction),
 	// then start the second node from the same state
@@ -371,8 +372,14 @@ func runHistory(t *rapid.T, concurrent bool) {
 			}
 		case "uspend":
 			if g := e.s.GenUSpend(t, nil); g != nil {
+				if g.Underpaid {
+					vstat.Label("underpaying_spend_" + g.Kind)
+				}
 				if err := submit(g.Tx, g.Desc); err == nil {
 					e.pendingU[g.Tx.Hash()] = g.KeyImages
+					if g.Underpaid {
+						e.fail(t, "admission:underpaying-confidential-spend-accepted", "a confidential spend paying less than the required fee was admitted: %s", g.Desc)
+					}
 				}
 			}
 		case "reap":
